@@ -38,4 +38,10 @@ address `base`, for address size `s`. -/
 def meaning (s : Nat) (enc : WExpr → Bytes) (base : Nat) (l : WList) : List Denot :=
   resolveList s noTable base (l.map (asBuilt enc))
 
+/-- the unit's base address as the reader sees it (`Unit::low_pc`): the root DIE's
+`DW_AT_low_pc`, 0 if there is none -/
+def unitBase : Option Addr → Nat
+  | some (.const v) => v
+  | _ => 0
+
 end Gimli.Spec.WLists
